@@ -78,7 +78,7 @@ func Registry() []*Spec {
 	add(Spec{Property: "C14", Name: "VerifC14_Keys", Pkg: "jp",
 		Quick: map[string]int{"K": 2}, Thorough: map[string]int{"K": 3},
 		Covers: []string{"done"}, UnitDepth: 4,
-		Note: "Child(k) for every key of <= K symbolic bytes, 7 positions (first, after root, after child, after descent, in a union, as the string constant of a filter, inside the sub-path of a filter - the last two also evaluated), String() and BracketString(): parses, fragment-wise equal, prints identically"})
+		Note: "Child(k) for every key of <= K symbolic bytes, 7 positions (first, after root, after child, after descent, in a union, as the string constant of a filter, inside the sub-path of a filter, plus a filter with a float constant from a concrete menu of 6 - the last three also evaluated), String() and BracketString(): parses, fragment-wise equal, prints identically"})
 	add(Spec{Property: "C14", Name: "VerifC14_Numbers", Pkg: "jp",
 		Quick: map[string]int{"NB": 99}, Thorough: map[string]int{"NB": 999},
 		Covers: []string{"done"}, UnitDepth: 7,
@@ -166,6 +166,10 @@ func Registry() []*Spec {
 		Quick: map[string]int{}, Thorough: map[string]int{},
 		Covers: []string{"true", "false"}, UnitDepth: 3,
 		Note: "lt gt lte gte eq on 2..3 symbolic one-byte strings: true iff every argument relates to its successor"})
+	add(Spec{Property: "C20", Name: "VerifC20_Equal", Pkg: "asm",
+		Quick: map[string]int{}, Thorough: map[string]int{},
+		Covers: []string{"true", "false"}, UnitDepth: 3,
+		Note: "eq / neq on two containers under $.src (8 shapes: objects with null members and different key sets, arrays with nil, nested objects; symbolic int leaves): true iff the trees are equal (a null member is not an absent member)"})
 	// ---- C07: reused and pooled instances behave like fresh ones
 	add(Spec{Property: "C07", Name: "VerifC07_Reuse", Pkg: "asm",
 		Quick: map[string]int{}, Thorough: map[string]int{},
